@@ -183,6 +183,11 @@ func shapeList() []shapeCtor {
 			return sdf.Screw3D(t, 4, 0, 0.5, 1)
 		}},
 		{name: "VoxelSDF3", mk3: func() (sdf.SDF3, error) { return sdf.NewVoxelSDF3(sphere(), 8, nil), nil }},
+		{name: "VoxelSDF3(non-finite corners)", mk3: func() (sdf.SDF3, error) {
+			// a field that is -Inf deep inside (as an exponential blend of a big object is): some voxel corners, and
+			// the values interpolated from them, are not finite
+			return sdf.NewVoxelSDF3(infCore{sphere()}, 10, nil), nil
+		}},
 		{name: "Mesh3D", mk3: func() (sdf.SDF3, error) {
 			return sdf.Mesh3D(render.ToTriangles(box3(), render.NewMarchingCubesOctree(6)))
 		}},
@@ -334,6 +339,18 @@ func deepDigest(x interface{}) uint64 {
 }
 
 // ---- observations -------------------------------------------------------------------
+
+// infCore is -Inf where the wrapped shape is more than 0.4 inside.
+type infCore struct{ s sdf.SDF3 }
+
+func (c infCore) Evaluate(p v3.Vec) float64 {
+	d := c.s.Evaluate(p)
+	if d < -0.4 {
+		return math.Inf(-1)
+	}
+	return d
+}
+func (c infCore) BoundingBox() sdf.Box3 { return c.s.BoundingBox() }
 
 type concObs struct {
 	Ev       string `json:"ev"`
